@@ -5,7 +5,9 @@ use log::warn;
 /// minutes forced to unsigned by i16 type, but passing a negative value for
 /// seconds leads to undefined behaviour.
 pub fn dms_to_dd(d: i32, m: u16, s: f64) -> f64 {
-    d.signum() as f64 * (d.abs() as f64 + (m as f64 + s / 60.) / 60.)
+    // The sign is that of the degree-component, but a zero degree-component is not negative
+    let sign = if d < 0 { -1. } else { 1. };
+    sign * (d.abs() as f64 + (m as f64 + s / 60.) / 60.)
 }
 
 /// Simplistic transformation from degrees and minutes-with-decimals
@@ -13,7 +15,9 @@ pub fn dms_to_dd(d: i32, m: u16, s: f64) -> f64 {
 /// degree-component, but passing a negative value for minutes leads
 /// to undefined behaviour.
 pub fn dm_to_dd(d: i32, m: f64) -> f64 {
-    d.signum() as f64 * (d.abs() as f64 + (m / 60.))
+    // The sign is that of the degree-component, but a zero degree-component is not negative
+    let sign = if d < 0 { -1. } else { 1. };
+    sign * (d.abs() as f64 + (m / 60.))
 }
 
 /// Simplistic transformation from the ISO-6709 DDDMM.mmm format to
